@@ -622,6 +622,8 @@ func (m *Machine) expr(e Expr) (Value, signal) {
 		return OptV{}, signal{}
 	case NullLit:
 		return NullV{}, signal{}
+	case AnyObjLit:
+		return &ObjV{M: map[string]Value{}}, signal{}
 	case Grouped:
 		return m.expr(e.X)
 	case ListLit:
@@ -1071,6 +1073,24 @@ func (m *Machine) mcall(e MCall) (Value, signal) {
 		return nil, s
 	}
 	switch r := recv.(type) {
+	case *ObjV:
+		switch e.Name {
+		case "set":
+			k := args[0].(string)
+			if _, ok := r.M[k]; !ok {
+				r.Keys = append(r.Keys, k)
+			}
+			r.M[k] = args[1]
+			return NullV{}, signal{}
+		case "keys":
+			ks := append([]string{}, r.Keys...)
+			sort.Strings(ks)
+			l := &ListV{}
+			for _, k := range ks {
+				l.E = append(l.E, k)
+			}
+			return l, signal{}
+		}
 	case *ListV:
 		switch e.Name {
 		case "len":
